@@ -180,10 +180,6 @@ theorem two_variable_step (c : Cfg) (w : World) (op : Op) (hp : c.passthrough = 
     | nil => rfl
     | cons s r => simp only []; cases storeSeg w.cur.host s v <;> simp [orSelf]
 
-theorem run_cons (c : Cfg) (w : World) (op : Op) (ops : List Op) :
-    run c w (op :: ops) =
-      ((run c (step c w op).1 ops).1, (step c w op).2 :: (run c (step c w op).1 ops).2) := rfl
-
 /-- The two-variable state machine, for every operation sequence: the final host
 is the fold of the host steps, the final override the fold of the override steps. -/
 theorem two_variable (c : Cfg) (hp : c.passthrough = false) (ops : List Op) (w : World) :
@@ -354,15 +350,68 @@ theorem lens_frame {p q : List Seg} (hd : Diverge p q) {o o' v : Val} (h : assig
 theorem lens_frame_remove {p q : List Seg} (hd : Diverge p q) {o o' : Val} (h : remove o p = .ok o') :
     lookup o' q = lookup o q := lookup_remove_diverge hd h
 
-/-- writes at paths that part ways commute (one of the two targets exists beforehand;
-otherwise both keys are new in one map and the two results differ in insertion order
-only, which `lens_frame` shows to be unobservable through `lookup`) -/
-theorem lens_commute {p q : List Seg} (hd : Diverge p q) {o o1 o2 : Val} (v w : Val)
+/-- The unrestricted commutation law (literal equality of the two results). -/
+def LensCommuteFull : Prop :=
+  ∀ (p q : List Seg) (o o1 o2 v w : Val), Diverge p q →
+    assign o p v = .ok o1 → assign o q w = .ok o2 → assign o1 q w = assign o2 p v
+
+/-- Writes at paths that part ways commute when one of the two targets exists
+beforehand. (Otherwise both keys are new in one and the same map and the two results
+differ in the insertion order of that map — as the two `__dict__`s do in Python;
+`lens_commute_full_fails` is the witness, `lens_frame` + `lens_put_get` say that both
+results hold both values and agree on every path that parts ways with the two.) -/
+theorem lens_commute_partial {p q : List Seg} (hd : Diverge p q) {o o1 o2 : Val} (v w : Val)
     (hex : (∃ x, lookup o p = .ok x) ∨ (∃ y, lookup o q = .ok y))
     (h1 : assign o p v = .ok o1) (h2 : assign o q w = .ok o2) :
     assign o1 q w = assign o2 p v := assign_comm hd o o1 o2 v w hex h1 h2
 
+/-- With no side condition at all: both orders of two writes at paths that part
+ways succeed, both results hold both values, and both agree with the original on
+every path that parts ways with the two (so they can differ in nothing but the
+insertion order of a map). -/
+theorem lens_commute_content {p q : List Seg} (hd : Diverge p q) {o o1 o2 : Val} (v w : Val)
+    (h1 : assign o p v = .ok o1) (h2 : assign o q w = .ok o2) :
+    ∃ r1 r2, assign o1 q w = .ok r1 ∧ assign o2 p v = .ok r2
+      ∧ lookup r1 p = .ok v ∧ lookup r1 q = .ok w ∧ lookup r2 p = .ok v ∧ lookup r2 q = .ok w
+      ∧ ∀ x, Diverge p x → Diverge q x → lookup r1 x = lookup o x ∧ lookup r2 x = lookup o x := by
+  obtain ⟨r1, hr1⟩ := assign_ok_after_diverge hd o o1 o2 v w h1 h2
+  obtain ⟨r2, hr2⟩ := assign_ok_after_diverge hd.symm o o2 o1 w v h2 h1
+  refine ⟨r1, r2, hr1, hr2, ?_, lookup_assign_same hr1, lookup_assign_same hr2, ?_, ?_⟩
+  · rw [lookup_assign_diverge hd.symm hr1]; exact lookup_assign_same h1
+  · rw [lookup_assign_diverge hd hr2]; exact lookup_assign_same h2
+  · intro x hpx hqx
+    exact ⟨by rw [lookup_assign_diverge hqx hr1, lookup_assign_diverge hpx h1],
+           by rw [lookup_assign_diverge hpx hr2, lookup_assign_diverge hqx h2]⟩
+
+theorem lens_commute_full_fails : ¬ LensCommuteFull := by
+  intro h
+  have := h [.attr "a"] [.attr "b"] (.obj [] []) _ _ (.int 1) (.int 2) (.head _ _ (by decide)) rfl rfl
+  simp [assign, modifyLast, storeSeg, fset] at this
+
 example : Diverge [.attr "a", .item "k"] [.attr "a", .item "j", .attr "x"] := .cons _ (.head _ _ (by decide))
+
+/-- non-vacuity of `lens_commute_partial`: a host, two diverging paths, one target present, both writes succeed -/
+example : ∃ o o1 o2, (∃ x, lookup o [.attr "a", .item "k"] = .ok x)
+    ∧ assign o [.attr "a", .item "k"] (.int 1) = .ok o1 ∧ assign o [.attr "a", .item "j"] (.int 2) = .ok o2 :=
+  ⟨.obj [] [("a", .dict [("k", .int 0)])], _, _, ⟨_, rfl⟩, rfl, rfl⟩
+
+/-- non-vacuity of `passthrough_rt` / `passthrough_del`: prefix present, parent accepts -/
+example : ∃ (parent parent' : Val), lookup (.obj ["x"] [("sub", .obj ["x"] [])]) [.attr "sub"] = .ok parent
+    ∧ storeSeg parent (.attr "x") (.int 3) = .ok parent' := ⟨_, _, rfl, rfl⟩
+example : ∃ (parent parent' : Val), lookup (.obj [] [("d", .dict [("k", .int 1)])]) [.attr "d"] = .ok parent
+    ∧ dropSeg parent (.item "k") = .ok parent' := ⟨_, _, rfl, rfl⟩
+/-- … and a type-checked target refuses an ill-typed passthrough write -/
+example : aliasSet ⟨[.attr "x"], true, none, none, false, false, true⟩ ⟨.obj ["x"] [], none⟩ (.str 0) = .error .typeError := rfl
+
+/-- non-vacuity of `shadow_persists` / `two_variable`: target operations after a local assignment -/
+example : (run ⟨[.attr "x"], false, none, none, false, false, false⟩ ⟨⟨.obj [] [("x", .int 1)], none⟩, [], 0⟩
+    [.writeAlias (.int 9), .writeTarget (.int 2), .delTarget, .deepcopy, .readAlias, .delAlias, .readAlias]).2.map (·.res)
+    = [.none, .none, .none, .none, .val (.int 9), .none, .err .attributeError] := rfl
+
+/-- non-vacuity of `missing_raises`: a `KeyError` on the path surfaces as `AttributeError` -/
+example : lookup (.obj [] [("d", .dict [])]) [.attr "d", .item "k"] = .error .keyError
+    ∧ aliasGet ⟨[.attr "d", .item "k"], false, none, none, false, false, false⟩ ⟨.obj [] [("d", .dict [])], none⟩
+      = .err .attributeError := ⟨rfl, rfl⟩
 
 /-! ## DeprecatedAlias = Alias + one warning per descriptor call -/
 
@@ -552,10 +601,11 @@ theorem fresh_ids_increase (c : Cfg) (ops : List Op) (w : World) :
     obtain ⟨i1, i2, i3⟩ := ih (step c w op).1
     rcases step_fresh c w op with ⟨hf, hno⟩ | ⟨hf, v, hv⟩
     · have hfi : freshIds ((step c w op).2 :: (run c (step c w op).1 ops).2) = freshIds (run c (step c w op).1 ops).2 := by
-        simp only [freshIds]
-        split
-        · rename_i v id heq; exact absurd heq (hno v id)
-        · rfl
+        cases hres : (step c w op).2.res with
+        | fresh v id => exact absurd hres (hno v id)
+        | none => simp [freshIds, hres]
+        | val v => simp [freshIds, hres]
+        | err e => simp [freshIds, hres]
       simp only [hfi]
       rw [hf] at i1 i2
       exact ⟨i1, i2, i3⟩
@@ -571,5 +621,68 @@ theorem fresh_ids_increase (c : Cfg) (ops : List Op) (w : World) :
       · refine List.pairwise_cons.2 ⟨?_, i3⟩
         intro id hid
         have := i2 id hid; omega
+
+/-! ## the path parser and the renderer are inverse to each other -/
+
+/-- render ∘ parse = id on accepted strings: the matches of an accepted path, joined,
+are the path (this *is* the join check of `_attr_path`). -/
+theorem path_roundtrip_render {s : List Char} {ts : List Tok} (h : parsePath s = .ok ts) :
+    renderToks ts = s := by
+  rw [parsePath_eq] at h
+  cases ht : tokenize s with
+  | none => simp [ht] at h
+  | some ts' => simp [ht] at h; subst h; exact tokenize_sound ht
+
+/-- parse ∘ render = id on canonical token lists … -/
+theorem path_roundtrip_parse {ts : List Tok} (h : CanonToks true false ts) :
+    parsePath (renderToks ts) = .ok ts := by
+  rw [parsePath_eq, tokenize_complete h]
+
+/-- … and the canonical token lists are exactly what the parser returns: accepted
+strings and canonical token lists are in bijection. -/
+theorem path_accepted_iff (s : List Char) (ts : List Tok) :
+    parsePath s = .ok ts ↔ (CanonToks true false ts ∧ renderToks ts = s) := by
+  constructor
+  · intro h
+    refine ⟨?_, path_roundtrip_render h⟩
+    rw [parsePath_eq] at h
+    cases ht : tokenize s with
+    | none => simp [ht] at h
+    | some ts' => simp [ht] at h; subst h; exact tokenize_canon ht
+  · rintro ⟨hc, rfl⟩; exact path_roundtrip_parse hc
+
+/-- a string is rejected (`ValueError`) iff it is the rendering of no canonical token list -/
+theorem path_rejected_iff (s : List Char) :
+    parsePath s = .error .valueError ↔ ¬ ∃ ts, CanonToks true false ts ∧ renderToks ts = s := by
+  constructor
+  · rintro h ⟨ts, hts⟩
+    rw [(path_accepted_iff s ts).2 hts] at h; cases h
+  · intro h
+    rw [parsePath_eq]
+    cases ht : tokenize s with
+    | none => rfl
+    | some ts =>
+      exfalso; apply h
+      have : parsePath s = .ok ts := by rw [parsePath_eq, ht]
+      exact ⟨ts, (path_accepted_iff s ts).1 this⟩
+
+/-- Segment level: every segment list whose attribute names are `\w+` (keys are
+arbitrary) has a canonical path string `a.b["k"].c`; parsing it gives back exactly
+these accesses. -/
+theorem path_roundtrip_segs {p : List Seg} (h : CanonSegs p) :
+    parsePath (renderSegs p) = .ok (segsToks true p) ∧ toksSegs (segsToks true p) = some p :=
+  ⟨path_roundtrip_parse (canon_segsToks p true false h (fun _ => rfl)), toksSegs_segsToks p true⟩
+
+/-- the identifier shortcut of `_attr_path` is redundant (ASCII) -/
+theorem identifier_shortcut {s : List Char} (h : isIdentifier s = true) :
+    tokenize s = some [⟨false, .word s⟩] := tokenize_identifier h
+
+example : parsePath "a[\"k.j\"].b".toList
+    = .ok [⟨false, .word ['a']⟩, ⟨false, .key .dq ['k', '.', 'j']⟩, ⟨true, .word ['b']⟩] := by rfl
+example : parsePath "a.[\"k\"]".toList = .error .valueError := by rfl
+example : parsePath "['k']x".toList = .ok [⟨false, .key .sq ['k']⟩, ⟨false, .word ['x']⟩] := by rfl
+example : renderSegs [.attr "a", .item "k\"q", .attr "b"] = "a[\"k\\\"q\"].b".toList := by decide
+example : CanonSegs [.attr "a", .item "k.j", .attr "b1"] :=
+  ⟨⟨by decide, by decide⟩, ⟨by decide, by decide⟩, trivial⟩
 
 end SpecVerif.Props.C18
